@@ -18,12 +18,13 @@ CLAIMS = {
         "text": "Theorems over all parameter tuples and all 64-bit word streams on the Lean model of RollCommon/Fate/DoubleCross: "
                 "exactly `times` dice, each a face 1..sides after the clamp; kept count = k or times-k clamped; shown order is a "
                 "permutation sorted so the kept dice are the lowest/highest; total = sum of kept (true sum under NoOverflow, "
-                "wrapped otherwise); text shape; Fate symbols and sum; Double Cross round value = 10 iff a critical die else "
-                "the highest die. The model is tied to roll_func.go by per-family correspondence streams; an independent "
+                "wrapped otherwise); text shape; Fate symbols and sum; `coc_rule` (bonus/penalty = least/greatest percentile reading "
+                "over the d100's and every extra die's tens digit, 00+0 = 100); `wod_rule` / `dc_rule` (the rolled dice form a chain of "
+                "rounds — each round as large as the previous round's count of dice at the add line — successes counted over all "
+                "dice of all rounds; Double Cross sums 10 per round with a critical die, else the round's highest die). The model is tied to roll_func.go by per-family correspondence streams; an independent "
                 "game-rule oracle re-derives every result from the dice the implementation shows (also through VM syntax), "
                 "and illegal parameter tuples must be rejected by the VM.",
-        "note": TB + "CoC and WoD rules are checked by the correspondence stream and the rule oracle, not yet by a Lean theorem. "
-                     "sort.Slice is modelled as merge sort (equal ints are indistinguishable).",
+        "note": TB + "Every dice family of roll_func.go has its rule theorem. sort.Slice is modelled as merge sort (equal ints are indistinguishable).",
         "technique": "Lean 4 theorems on an executable model of roll_func.go + differential streams + rule oracle",
     },
     "C15": {
@@ -280,6 +281,27 @@ CLAIMS = {
                      "oracle, not by a theorem: the VM model marks dice.custom and host callbacks `unsup`. Regular-expression matching "
                      "(Go regexp) and host-supplied stream parsers are outside any model: the matcher is a parameter of the theorems.",
         "technique": "Lean 4 lemmas on the PEG-engine model with an abstract custom matcher + emission-trace stream with registered regexes + call-log / metamorphic oracle",
+    },
+    "C02": {
+        "text": "compile_correct (DS/Props/C02.lean, from run_compile in DS/Proofs/FragCompile.lean): for EVERY source tree of the fragment "
+                "{numbers, all 15 binary operators, unary minus, the ternary, ||, &&} the code the compiler emits, run by the VM model's "
+                "dispatch loop, ends with exactly the value — or exactly the error — and the heap that the definitional, syntax-directed "
+                "semantics evalF prescribes; run_compile is the compositional form (from ANY frame and surrounding stack a "
+                "sub-expression's code pushes its value on the untouched stack and continues behind itself: jump offsets and stack "
+                "balance of every composition, by induction over the tree, unbounded depth). Ties: compile stream (the theorem's "
+                "compiler = the real compiler's bytecode dump, instruction by instruction, on printed trees); vm stream (dispatch loop = "
+                "rollvm.go). For the whole core language a definitional big-step semantics over SOURCE TREES (DS/Model/RefEval.lean: "
+                "evaluation order, control flow incl. break/continue, calls with dynamic scoping, computed values, templates, "
+                "containers by reference, dice under min/max mode) is compared by the ref stream with the real parser+VM on generated "
+                "trees printed by an independent printer that follows the published grammar's precedence levels with random legal "
+                "whitespace and redundant parentheses, in sequences of 1-3 programs on one VM (value / error-ness per program, "
+                "variables after the sequence). Eight parser/compiler defects found this way were repaired.",
+        "note": TB + "The theorem covers the expression fragment without variables; statements, loops, functions, computed values, "
+                     "templates and containers are decided by the ref stream against the definitional semantics (a partial def, "
+                     "executable, not a proof object). Primitive operator tables are shared between the definitional semantics and "
+                     "the VM model (they are C01's totality theorems' and the vm stream's subject). The printer is the statement of "
+                     "the grammar's precedence and of where white space is legal.",
+        "technique": "Lean 4 compiler-correctness theorem (fragment, induction over source trees) + translation-validation stream + definitional-semantics differential stream",
     },
 }
 
